@@ -1464,7 +1464,8 @@ theorem upd_shape {s : Sys} {c : Nat} (f : Conn → Conn) (hid : ∀ x, (f x).id
 untouched, no database is touched -/
 theorem queued_step (mode : Mode) {s : Sys} {c : Nat} {q : List (String × List Bytes)} (hq : Queuing s c q)
     (name : Bytes) (args : List Bytes) {sig : Sig} (hsig : lookupSig name = some sig)
-    (har : sig.checkArity args.length = true) (hnq : SigTable.notQueued.contains sig.name = false) :
+    (har : sig.checkArity args.length = true) (hnq : SigTable.notQueued.contains sig.name = false)
+    (hnm : SigTable.notInMulti.contains sig.name = false) :
     (after mode s (c, name :: args)).out = (c, .queued) :: s.out ∧
     Queuing (after mode s (c, name :: args)) c (q ++ [(sig.name, args)]) ∧
     (after mode s (c, name :: args)).srv.dbs = s.srv.dbs ∧
@@ -1478,7 +1479,7 @@ theorem queued_step (mode : Mode) {s : Sys} {c : Nat} {q : List (String × List 
     rw [dispatch_eq]
     show setBuf c [] (dispatchBody mode c (s.conn c) sig args (pre s)).2 = _
     unfold dispatchBody
-    simp only [har, hq.tx, hnq, Bool.not_true, Bool.not_false, Bool.false_eq_true, if_false, Option.isSome_some,
+    simp only [har, hq.tx, hnq, hnm, Bool.not_true, Bool.not_false, Bool.false_eq_true, if_false, Option.isSome_some,
       Bool.and_self, if_true, bind, StateT.bind, modifyConn_run, emit_run]
   have hcl : ((pre s).conn c).closed = false := (pre_conn_proj s c Conn.closed (fun _ => rfl)).trans hq.closed
   obtain ⟨h1, h2, h3, h4, h5, h6⟩ := upd_shape (fun x => { x with tx := x.tx.map (· ++ [(sig.name, args)]) })
@@ -1501,6 +1502,49 @@ theorem queued_step (mode : Mode) {s : Sys} {c : Nat} {q : List (String × List 
     · rfl
   · rw [h3]; exact (pre_conn_proj s c Conn.pubsub (fun _ => rfl)).trans hq.pubsub
   · rw [hdb, h4]; exact hq.dbIdx
+
+/-- (P)SUBSCRIBE / (P)UNSUBSCRIBE sent inside MULTI: refused with an error reply, nothing is queued, the
+transaction is marked failed; no database is touched and the connection stays as usable as it was -/
+theorem refused_step (mode : Mode) {s : Sys} {c : Nat} {q : List (String × List Bytes)} (hq : Queuing s c q)
+    (name : Bytes) (args : List Bytes) {sig : Sig} (hsig : lookupSig name = some sig)
+    (har : sig.checkArity args.length = true) (hnq : SigTable.notQueued.contains sig.name = false)
+    (hnm : SigTable.notInMulti.contains sig.name = true) :
+    (after mode s (c, name :: args)).out = (c, .err (strBytes Msgs.COMMAND_IN_MULTI_MSG)) :: s.out ∧
+    (after mode s (c, name :: args)).HasConn c ∧
+    ((after mode s (c, name :: args)).conn c).tx = some q ∧
+    ((after mode s (c, name :: args)).conn c).txFailed = true ∧
+    ((after mode s (c, name :: args)).conn c).buf = [] ∧
+    ((after mode s (c, name :: args)).conn c).dead = false ∧
+    ((after mode s (c, name :: args)).conn c).paused = false ∧
+    ((after mode s (c, name :: args)).conn c).closed = false ∧
+    ((after mode s (c, name :: args)).conn c).pubsub = 0 ∧
+    (after mode s (c, name :: args)).srv.connected = true ∧
+    (after mode s (c, name :: args)).crashed = none ∧
+    (after mode s (c, name :: args)).srv.dbs = s.srv.dbs ∧
+    ((after mode s (c, name :: args)).conn c).db = (s.conn c).db := by
+  have hst : after mode s (c, name :: args) = setBuf c []
+      (((pre s).updConn c fun x => { x with txFailed := true }).emitS c
+        (.err (strBytes Msgs.COMMAND_IN_MULTI_MSG))) := by
+    unfold after
+    simp only
+    rw [sendallGuarded_encode mode c _ s hq.has hq.buf hq.dead hq.paused hq.connected, processCommand_cons]
+    simp only [StateT.run, bind, StateT.bind, getConn_run, hsig]
+    rw [dispatch_eq]
+    show setBuf c [] (dispatchBody mode c (s.conn c) sig args (pre s)).2 = _
+    unfold dispatchBody
+    simp only [har, hq.tx, hnq, hnm, Bool.not_true, Bool.not_false, Bool.false_eq_true, if_false, Option.isSome_some,
+      Bool.and_self, if_true, bind, StateT.bind, modifyConn_run, emit_run]
+  have hcl : ((pre s).conn c).closed = false := (pre_conn_proj s c Conn.closed (fun _ => rfl)).trans hq.closed
+  obtain ⟨h1, h2, h3, h4, h5, h6⟩ := upd_shape (fun x => { x with txFailed := true })
+    (fun _ => rfl) (.err (strBytes Msgs.COMMAND_IN_MULTI_MSG)) hst hq.has hcl
+  refine ⟨h1, h2, ?_, by rw [h3], by rw [h3], ?_, ?_, ?_, ?_, by rw [h5]; exact hq.connected,
+    by rw [h6]; exact hq.crashed, h4, ?_⟩
+  · rw [h3]; exact (pre_conn_proj s c Conn.tx (fun _ => rfl)).trans hq.tx
+  · rw [h3]; exact (pre_conn_proj s c Conn.dead (fun _ => rfl)).trans hq.dead
+  · rw [h3]; exact (pre_conn_proj s c Conn.paused (fun _ => rfl)).trans hq.paused
+  · rw [h3]; exact hcl
+  · rw [h3]; exact (pre_conn_proj s c Conn.pubsub (fun _ => rfl)).trans hq.pubsub
+  · rw [h3]; exact pre_conn_proj s c Conn.db (fun _ => rfl)
 
 /-- a record up to the notification flags and the in-transaction flag -/
 def ess (x : Conn) : Conn := { x.core with inTx := false }
